@@ -333,6 +333,8 @@ class Norm:
         return x
 
     def length(self, X):
+        if X[0] == "rawslice" and len(X) > 2:
+            return X[2]
         if X[0] == "sub":
             return ("bin", "Sub", X[3], X[2]) if X[2] != ("c", 0) else X[3]
         if X[0] == "unsize" and len(X) > 3 and str(X[3]).startswith(("&[", "&mut [")) and ";" in str(X[3]):
